@@ -130,3 +130,24 @@ package turn
 //@ lemma [C17:window-plain] (t, n): (isInt(itoa(t)) && intOf(itoa(t)) >= n) == (t >= n)
 //@ lemma [C17:window-rest] (t, n, user): (isInt(splitAt(strcat(strcat(itoa(t), ":"), user), ":", 0)) && intOf(splitAt(strcat(strcat(itoa(t), ":"), user), ":", 0)) >= n) == (t >= n)
 //@ lemma [C17:rest-user-id] (t, user): !hasSep(user, ":") ==> splitLen(strcat(strcat(itoa(t), ":"), user), ":") == 2 && splitAt(strcat(strcat(itoa(t), ":"), user), ":", 1) == user
+
+//@      // ---- C18: lock discipline of the remaining lock-taking functions of this package (`lockonly`: only lock
+//@      // balance / unlock-of-held / no-self-deadlock / lock order obligations are generated for these bodies)
+//@ func (*Client).Close
+//@   lockonly
+//@ func (*Client).getReservationToken
+//@   lockonly
+//@ func (*Client).getTCPAllocation
+//@   lockonly
+//@ func (*Client).handleSTUNMessage
+//@   lockonly
+//@ func (*Client).onRtxTimeout
+//@   lockonly
+//@ func (*Client).relayedUDPConn
+//@   lockonly
+//@ func (*Client).setRelayedUDPConn
+//@   lockonly
+//@ func (*Client).setReservationToken
+//@   lockonly
+//@ func (*Client).setTCPAllocation
+//@   lockonly
